@@ -622,10 +622,35 @@ class VPipe:
         return ("P", len(self.buf), self.wclosed, self.rclosed)
 
 
+class _RawWriter:
+    """the unbuffered stream under a BufferedWriter: a write may be short (at most one
+    pipe buffer per call, as with non-blocking / green streams or an interrupting signal)"""
+
+    PIPE_BUF = 65536
+
+    def __init__(self, w: "VPipeWriter") -> None:
+        self._w = w
+
+    def write(self, data) -> int:
+        data = bytes(data)
+        n = min(len(data), self.PIPE_BUF)
+        self._w.write(data[:n])
+        return n
+
+    def flush(self) -> None:
+        return None
+
+    def fileno(self) -> int:
+        return self._w.fileno()
+
+
 class VPipeWriter:
+    """behaves like the BufferedWriter of a subprocess pipe: write() takes everything"""
+
     def __init__(self, pipe: VPipe) -> None:
         self.pipe = pipe
         self.closed = False
+        self.raw = _RawWriter(self)
 
     def _proc_close(self) -> None:
         self.closed = True
@@ -685,6 +710,7 @@ class VPipeReader:
     def __init__(self, pipe: VPipe) -> None:
         self.pipe = pipe
         self.closed = False
+        self.raw = self  # reads are "whatever is available" already
 
     def _proc_close(self) -> None:
         self.closed = True
